@@ -632,6 +632,11 @@ func (h *httpServerHandler) handleGet(ctx context.Context, w http.ResponseWriter
 	<-connCtx.Done()
 	verifEvent("get.woken", r)
 
+	// Wait for an in-flight write: the ResponseWriter must not be used once this handler returns.
+	// Writers that get the lock later see the cancelled context and give up.
+	conn.writeLock.Lock()
+	conn.writeLock.Unlock()
+
 	// Clean up connection
 	h.getSSEConnectionsLock.Lock()
 	if h.getSSEConnections[session.GetID()] == conn {
@@ -655,6 +660,9 @@ func (h *httpServerHandler) sendNotificationToGetSSE(sessionID string, notificat
 
 	conn.writeLock.Lock()
 	defer conn.writeLock.Unlock()
+	if conn.ctx.Err() != nil {
+		return fmt.Errorf("%w: %s (stream closed)", ErrSessionNotFound, sessionID)
+	}
 
 	// Use SSE responder to send notification
 	eventID, err := conn.sseResponder.sendNotification(conn.writer, notification)
@@ -766,6 +774,10 @@ func (h *httpServerHandler) SendRequest(ctx context.Context, sessionID string, r
 
 	// Send the request through GET SSE using the proper sendRequest method.
 	conn.writeLock.Lock()
+	if conn.ctx.Err() != nil {
+		conn.writeLock.Unlock()
+		return nil, fmt.Errorf("no GET SSE connection found for session: %s (stream closed)", sessionID)
+	}
 	eventID, err := conn.sseResponder.sendRequest(conn.writer, request)
 	if err != nil {
 		conn.writeLock.Unlock()
